@@ -614,5 +614,6 @@ func main() {
 	genClientSites(*repo, *out)
 	genRetry(*repo, *out)
 	genWiring(*repo, *out)
+	genConds(*repo, *out)
 	fmt.Println("factgen: ok")
 }
